@@ -24,6 +24,8 @@ def zeroLeaves (c : Cfg) (hs : ∀ b, c.validSk b = true) (hp : ∀ b, c.validPk
   trap := fun _ _ => List.replicate c.pk 0
   mask := fun _ _ => List.replicate SS 0
   ct := fun _ _ => List.replicate c.enc 0
+  nonce := fun _ => List.replicate NONCE_LENGTH 0
+  box := fun s => List.replicate (s.ptx.length + 16) 0
   scalar_len := by intro; simp only [List.length_replicate]
   scalar_ok := by intro; exact hs _
   point_len := by intro; simp only [List.length_replicate]
@@ -37,6 +39,8 @@ def zeroLeaves (c : Cfg) (hs : ∀ b, c.validSk b = true) (hp : ∀ b, c.validPk
   trap_ok := by intro _ _; exact hp _
   mask_len := by intro _ _; simp only [List.length_replicate]
   ct_len := by intro _ _; simp only [List.length_replicate]
+  nonce_len := by intro; simp only [List.length_replicate]
+  box_len := by intro; simp only [List.length_replicate]
 
 def zeroLeavesC25519 : Leaves cfgC25519 := zeroLeaves cfgC25519 (fun _ => rfl) (fun _ => rfl)
 def zeroLeavesP256 : Leaves cfgP256 := zeroLeaves cfgP256 (fun _ => rfl) (fun _ => rfl)
@@ -81,6 +85,8 @@ def usk (u : WUsk) : WUsk :=
 /-- the components are shuffled: all that is left is their number and flavour -/
 def enc (x : WEnc) : WEnc :=
   { tag := zeros x.tag, c := x.c.map zeros, hyb := x.hyb, encs := x.encs.map (fun p => (zeros p.1, zeros p.2)) }
+
+def header (h : WHeader) : WHeader := { enc := enc h.enc, mdata := h.mdata.map zeros }
 
 end Shape
 end CC
